@@ -227,9 +227,26 @@ def main():
             _orig_start(self)
             time.sleep(case['slow_start'])
         _mpp.BaseProcess.start = _slow_start
+    configured_timeout = timeout
+    if case.get('timeout_type') == 'decimal':
+        import decimal
+        configured_timeout = decimal.Decimal(str(timeout))          # settings read from a config file as decimals
+    elif case.get('timeout_type') == 'fraction':
+        import fractions
+        configured_timeout = fractions.Fraction(str(timeout))
+    elif case.get('timeout_type') == 'int':
+        configured_timeout = int(timeout)
+    if case.get('frozen_clock'):
+        # the host runs its regression under a frozen clock (freezegun style): time() of the equalizer module does not advance
+        import playback.studio.equalizer as _eqmod
+        import time as _t
+        _frozen = _t.time()
+        if callable(getattr(_eqmod, 'time', None)) and getattr(_eqmod, 'time') is _t.time:
+            _eqmod.time = lambda: _frozen
+        _t.time = lambda: _frozen
     cfg = CompareExecutionConfig(keep_results_in_comparison=case.get('keep', False),
                                  compare_in_dedicated_process=case['dedicated'] and not case.get('flip_mode'),
-                                 compare_process_recycle_rate=case.get('recycle', 5), compare_process_timeout=timeout)
+                                 compare_process_recycle_rate=case.get('recycle', 5), compare_process_timeout=configured_timeout)
     # ---- observation wrappers (harness side, nothing in the repository; class level so that an Equalizer built by the studio is seen too)
     pids = []
     task_pid = []
